@@ -1362,7 +1362,10 @@ class Builder(object):
                     self.verifyName(frame, command, tokens, index)
 
                 elif connective == 'via':
-                    inode, index = self.parseIndirect(tokens, index, node=True)
+                    end = index + 1  # first is not reserved so inode ends at a following first clause
+                    while end < len(tokens) and tokens[end] != 'first':
+                        end += 1
+                    inode, index = self.parseIndirect(tokens[:end], index, node=True)
 
                 else:
                     msg = "Error building %s. Bad connective got %s." %\
